@@ -72,7 +72,36 @@ def check_attrs_x(case, rec):
     check_attrs(case, rec, True)
 
 
-CHECKS = {'attrs': check_attrs, 'attrs-x': check_attrs_x}
+def check_alias_attrs(case, rec):
+    """mentions written on a user alias whose definition has several top-level elements (`zzpair` = x1+x2+x3): every top-level element carries exactly
+    the merged attributes the mentions give when written on that element itself (added after seeded change C03-12: attribute copies sharing one value
+    list, visible only when one set of mentions is merged into more than one element)"""
+    ms, cfg = case['m'], case['cfg']
+    names = ['x1', 'x2', 'x3']
+    script = []
+    for n in names:
+        if script:
+            script.append('+')
+        script.append({'n': [n], 'm': [list(m) for m in ms], 'x': None, 'r': None, 'sc': False})
+    o = eff(cfg)
+    exp = M.render(M.unroll(M.interpret(script)), o)
+    text = 'zzpair' + M.ser_mentions(ms)
+    c = {'syntax': cfg.get('syntax', 'html'), 'snippets': dict(G.NEUTRALISE, zzpair='+'.join(names)), 'options': dict(cfg.get('options') or {})}
+    c['options']['output.format'] = False
+    rec.evals()
+    rec.nontrivial(distinct=True)
+    rec.cls('alias-with-several-top-level-elements')
+    try:
+        with guard():
+            got = expand(text, c)
+    except Exception as e:
+        rec.fail(core.exc_bucket(e), '%r: %s: %s' % (text, type(e).__name__, e))
+        return
+    if got != exp:
+        rec.fail('attrs-mismatch:alias', 'abbr %r (zzpair = %s) cfg %r\n expected %r\n got      %r' % (text, '+'.join(names), cfg, exp, got))
+
+
+CHECKS = {'attrs': check_attrs, 'attrs-x': check_attrs_x, 'alias-attrs': check_alias_attrs}
 
 POOL = [['.', ['a']], ['.', ['b']], ['#', ['i']], ['#', ['j']], ['a', 't', 'raw', ['1'], False], ['a', 't', 'dq', ['2 x'], False], ['a', 't', 'none', None, False],
         ['a', 'class', 'raw', ['c'], False], ['a', 'd', 'bool', None, False], ['a', 't', 'impl', None, False], ['a', 't', 'impl-raw', ['3'], False],
@@ -92,6 +121,29 @@ def shard_exhaustive(ctx, shard, nshards, maxlen):
                 opts = dict(OPTSETS[k % len(OPTSETS)])
                 opts['output.reverseAttributes'] = rev
                 ctx.rec.run_case(CHECKS, 'attrs-x', {'script': [{'n': ['p'], 'm': ms, 'x': None, 'r': None, 'sc': (k % 7 == 0)}], 'cfg': {'syntax': 'html', 'options': opts}})
+
+
+# unquoted values with a nested bracket pair followed by characters that are operators outside an attribute set
+NESTED = [['a', 't', 'raw', ['x[1].y'], False], ['a', 'u', 'raw', ['[v]+w#z'], False], ['a', 'w', 'raw', ['a[i]*2>b'], False]]
+
+
+def shard_extra(ctx, shard, nshards):
+    k = 0
+    pool = POOL + NESTED
+    for L in (1, 2, 3):
+        for seq in itertools.product(range(len(pool)), repeat=L):
+            k += 1
+            if k % nshards != shard:
+                continue
+            ms = [list(pool[i]) for i in seq]
+            opts = dict(OPTSETS[k % len(OPTSETS)])
+            opts['output.reverseAttributes'] = bool(k % 2)
+            if any(i >= len(POOL) for i in seq):
+                ctx.rec.run_case(CHECKS, 'attrs-x', {'script': [{'n': ['p'], 'm': ms, 'x': None, 'r': None, 'sc': False}, '>', {'n': ['x1'], 'm': [['.', ['k']]], 'x': None, 'r': None, 'sc': False}],
+                                                     'cfg': {'syntax': 'html', 'options': opts}})
+            elif L <= 2 or k % 3 == 0:
+                if not any(m[0] == 'a' and m[2] == 'expr' for m in ms):
+                    ctx.rec.run_case(CHECKS, 'alias-attrs', {'m': ms, 'cfg': {'syntax': 'html', 'options': opts}})
 
 
 P_ATTR = G.P(names=['p', 'div', 'x1', 'span', 'ul', 'x-y'], nameless=0.15, mentions='full', text=0.1, text_only=0.0, groups=0.15, max_depth=2, max_items=3, rep=0.2, rep_max=3, sc=0.15)
@@ -119,6 +171,8 @@ def shard_random(ctx, shard, nshards, n):
 
 
 def run(ctx):
+    ctx.run_parallel('shard_extra')
+    ctx.exhaustive('every sequence of ≤ 2 (every third of length 3) mentions on a user alias with three top-level elements; every sequence of ≤ 3 mentions containing an unquoted value with a nested bracket pair followed by operator characters')
     L = ctx.pick(3, 4)
     ctx.run_parallel('shard_exhaustive', extra=(L,))
     ctx.exhaustive('every sequence of ≤ %d mentions over a 12-mention pool × reverseAttributes on/off (option set rotates over 3)' % L)
